@@ -178,7 +178,7 @@ def check_merge(case, ctx: Ctx):
 @st.composite
 def incompatible_cases(draw):
     kind = draw(st.sampled_from(["width", "lengths", "names", "order", "variable-vs-fixed", "two-variable",
-                                 "storage-mode", "missing-column", "nbins"]))
+                                 "storage-mode", "missing-column", "nbins", "storage-mode-variable", "names-variable"]))
     w = draw(st.integers(2, 9))
     L1, L2 = draw(st.integers(w + 1, 6 * w)), draw(st.integers(w + 1, 6 * w))
     A = model.binnify(["chr1", "chr2"], [L1, L2], w)
@@ -209,6 +209,16 @@ def incompatible_cases(draw):
         cut2 = draw(st.integers(1, L1 - 1).filter(lambda c: c != cut1))
         A = {"names": ["chr1", "chr2"], "edges": [[0, cut1, L1], [0, L2]]}
         B = {"names": ["chr1", "chr2"], "edges": [[0, cut2, L1], [0, L2]]}
+    elif kind == "storage-mode-variable":
+        # same variable-width table, different storage modes
+        cut1 = draw(st.integers(1, L1 - 1))
+        A = {"names": ["chr1", "chr2"], "edges": [[0, cut1, L1], [0, L2]]}
+        B = A
+        symB = False
+    elif kind == "names-variable":
+        cut1 = draw(st.integers(1, L1 - 1))
+        A = {"names": ["chr1", "chr2"], "edges": [[0, cut1, L1], [0, L2]]}
+        B = {"names": ["chr1", "chrB"], "edges": [[0, cut1, L1], [0, L2]]}
     elif kind == "nbins":
         A = {"names": ["chr1"], "edges": [[0, 3, 9, 12]]}
         B = {"names": ["chr1"], "edges": [[0, 3, 5, 9, 12]]}
@@ -219,7 +229,9 @@ def incompatible_cases(draw):
     return {"part": "incompatible", "kind": kind, "A": A, "B": B, "symA": symA, "symB": symB,
             "swap": draw(st.booleans()), "existing": draw(st.booleans()),
             "n_inputs": draw(st.integers(2, 4)), "pos": draw(st.integers(0, 3)),
-            "same_file": draw(st.integers(0, 2)) == 0}
+            "same_file": draw(st.integers(0, 2)) == 0,
+            # the odd one out holds no pixels at all: it contributes nothing, but its axes are still not the others' axes
+            "empty_b": draw(st.integers(0, 2)) == 0}
 
 
 def check_incompatible(case, ctx: Ctx):
@@ -237,7 +249,7 @@ def check_incompatible(case, ctx: Ctx):
             mk = {"mode": "a"}
         nA, nB = gen.n_bins(case["A"]), gen.n_bins(case["B"])
         rowsA = [[0, nA - 1, 3, 1.0]] if case["symA"] else [[nA - 1, 0, 3, 1.0]]
-        rowsB = [[0, nB - 1, 5, 2.0]]
+        rowsB = [] if case.get("empty_b") else [[0, nB - 1, 5, 2.0]]
         colsB = ("count",) if case["kind"] == "missing-column" else ("count", "x")
         call("create A", create_from_model, pa, case["A"], rowsA, case["symA"], cols=("count", "x"), **mk)
         call("create B", create_from_model, pb, case["B"], [r[: 2 + len(colsB)] for r in rowsB], case["symB"], cols=colsB, **mk)
@@ -263,6 +275,7 @@ def check_incompatible(case, ctx: Ctx):
         ctx.clean(work)
     ctx.record(case, True, ["incompatible", "inc-" + case["kind"], "existing-file" if case["existing"] else "new-file",
                             "inc-inputs-in-one-file" if case.get("same_file") else "inc-inputs-in-own-files",
+                            "inc-odd-input-empty" if case.get("empty_b") else "inc-odd-input-has-pixels",
                             f"inc-n={case.get('n_inputs', 2)}", f"inc-pos={min(case.get('pos', 0), case.get('n_inputs', 2) - 1)}"])
 
 
